@@ -13,7 +13,7 @@ from pbt.props import c08
 ID = "C11"
 RULE = ("A dataset of n sorted entries on a genome of 1..4 chromosomes and a set of cut positions that splits it into consecutive chunks: every one "
         "of the 2^(n-1) chunkings for n <= N (exhaustive), sampled cut sets for n up to 200. Computations: bnp.mean, bnp.bincount, bnp.histogram "
-        "(explicit edges, or bin count with explicit range), count_kmers, groupby on the sorted chromosome key (as an identifier column and as a text-typed ragged column, where keys such as chr1/chr10 are prefixes of each other), chunk_entries(stream, m), and "
+        "(explicit edges, or bin count with explicit range), count_kmers, groupby on the sorted chromosome key (as an identifier column and as a text-typed ragged column, where keys such as chr1/chr10 are prefixes of each other), chunk_entries(stream, m) and chunk_lines(chunks, m), and "
         "per-chromosome pipelines built from the stream with Genome.get_intervals and evaluated with bnp.compute: pileup records, mask sum, "
         "pileup histogram, pileup sum, the column mean of the pileup under equal-length windows, and the same reductions evaluated together by one "
         "bnp.compute call on a tuple or dict of nodes (every subset of mean, sum, histogram); and the element-wise @streamable functions "
@@ -204,6 +204,17 @@ def check(case, stats=None):
                 return [Failure("C11:chunk_entries-content", {"expected": rows, "actual": flat, "m": m})]
             if any(s != m for s in sizes_out[:-1]) or (sizes_out and not (0 <= sizes_out[-1] <= m)):
                 return [Failure("C11:chunk_entries-sizes", {"m": m, "sizes": sizes_out, "input_chunk_sizes": [len(c) for c in chunks_of(table, case["cuts"])]})]
+            # the line-count helper of the file reader does the same job on a plain iterator of chunks
+            from bionumpy.io.parser import chunk_lines
+            pieces = chunks_of(table, case["cuts"])
+            if pieces and len(table):
+                out = list(chunk_lines(iter(pieces), m))
+                sizes_out = [len(c) for c in out]
+                flat = [(c, a, b) for ch in out for c, a, b in zip(ch.chromosome.tolist(), ch.start.tolist(), ch.stop.tolist())]
+                if flat != rows:
+                    return [Failure("C11:chunk_lines-content", {"expected": rows, "actual": flat, "m": m})]
+                if any(s != m for s in sizes_out[:-1]) or (sizes_out and not (0 <= sizes_out[-1] <= m)):
+                    return [Failure("C11:chunk_lines-sizes", {"m": m, "sizes": sizes_out, "input_chunk_sizes": [len(c) for c in pieces]})]
         else:
             genome = bnp.Genome.from_dict(sizes)
             per = {n: [(a, b) for c, a, b in rows if c == n] for n in names}
